@@ -48,6 +48,7 @@ func main() {
 	case "race":
 		runRepro(*seed, filepath.Join(*dir, "repro"), res)
 		runExportRepro(*seed, filepath.Join(*dir, "repro"), res)
+		runReplicaDist(*seed, filepath.Join(*dir, "replica"), res)
 		runRace(*seed, filepath.Join(*dir, "race"), *runs, res)
 	default:
 		vh.Fatalf("unknown mode %q", *mode)
